@@ -492,6 +492,11 @@ impl GremlinTranslator {
                 Ok((plan, None))
             }
             ast::Step::HasLabel(labels) => {
+                if labels.is_empty() {
+                    return Err(Error::Internal(
+                        "hasLabel() requires at least one label".to_string(),
+                    ));
+                }
                 // Labels(var) returns a list of labels, so we need to check if the
                 // target label is IN that list, not if the list equals the label
                 let predicate = if labels.len() == 1 {
@@ -581,12 +586,17 @@ impl GremlinTranslator {
                 Ok((plan, None))
             }
             ast::Step::Range(start, end) => {
+                let count = end.checked_sub(*start).ok_or_else(|| {
+                    Error::Internal(format!(
+                        "range({start}, {end}): the high end must not be below the low end"
+                    ))
+                })?;
                 let plan = LogicalOperator::Skip(SkipOp {
                     count: *start,
                     input: Box::new(input),
                 });
                 let plan = LogicalOperator::Limit(LimitOp {
-                    count: end - start,
+                    count,
                     input: Box::new(plan),
                 });
                 Ok((plan, None))
